@@ -109,24 +109,28 @@ Section Collect.
   (** all zone ids of the segment *)
   Variable all : list zid.
 
-  (** a pruner that answers None: no zones, or (after the repair) all zones of the type — read from
-      the arms of [select_for_segment] (Gen/Params.v) *)
-  Definition none_zones (st : strategy) : list czone :=
-    let no_zones := match st with
-                    | STemporal => query_none_no_zones_temporal
-                    | SEnum => query_none_no_zones_enum
-                    | SZoneXor => query_none_no_zones_zonexor
-                    | _ => false
-                    end in
-    if no_zones then [] else tagged all.
+  (** an operator the pruner does not serve ([!=]; for the enum bitmap also an undeclared variant):
+      no zones, or — after the repair — all zones of the type, read from the arms of
+      [select_for_segment] (Gen/Params.v).  An index that is served but answers None (cannot be
+      loaded) means "no zones". *)
+  Definition unserved_zones (st : strategy) (l : leaf) : list czone :=
+    match st with
+    | STemporal => if query_unserved_no_zones_temporal then [] else tagged all
+    | SEnum => match l_op l with
+               | CNe => if query_unserved_no_zones_enum then [] else tagged all
+               | _ => []
+               end
+    | SZoneXor => if query_unserved_no_zones_zonexor then [] else tagged all
+    | _ => tagged all
+    end.
 
   Definition leaf_zones (l : leaf) : list czone :=
     match choose sch l with
     | SFullScan => tagged all
     | SSurf => match ans l with Some zs => untagged zs | None => tagged all end
     | st => if serves sch l
-            then match ans l with Some zs => untagged zs | None => none_zones st end
-            else none_zones st
+            then match ans l with Some zs => untagged zs | None => [] end
+            else unserved_zones st l
     end.
 
   (** [neg = true]: the zones of NOT g *)
